@@ -15,16 +15,23 @@ vars == <<s, done>>
 BE4(n) == << n \div 16777216, (n \div 65536) % 256, (n \div 256) % 256, n % 256 >>
 Blob(n, k) == [i \in 1..n |-> (i * 11 + k) % 256]
 Payload(n, k) == IF n <= 300 THEN [i \in 1..n |-> ((i - 1) * 7 + k * 13 + 3) % 256] ELSE << Tok(n, k) >>
-F(cls, max) == CASE cls = "zero" -> 0 [] cls = "one" -> 1 [] OTHER -> max
+\* mixed classes: every field of the base class except ONE header timestamp, which is of another class
+\* ("one_zlast": all fields "one", last-append timestamp all zero; "zero_mopen": all zero, opening timestamp maximal ...)
+Base(c) == CASE c \in {"one_zlast", "one_zopen"} -> "one" [] c \in {"max_zlast", "max_zopen"} -> "max"
+             [] c \in {"zero_mlast", "zero_mopen"} -> "zero" [] OTHER -> c
+OpenCls(c) == CASE c \in {"one_zopen", "max_zopen"} -> "zero" [] c = "zero_mopen" -> "max" [] OTHER -> Base(c)
+LastCls(c) == CASE c \in {"one_zlast", "max_zlast"} -> "zero" [] c = "zero_mlast" -> "max" [] OTHER -> Base(c)
+F(c, max) == LET cls == Base(c) IN CASE cls = "zero" -> 0 [] cls = "one" -> 1 [] OTHER -> max
 Ts(cls, d) == [month |-> F(cls, 15), date |-> F(cls, 31), hour |-> F(cls, 31) , minute |-> F(cls, 63),
                sign |-> F(cls, 1), hourDev |-> F(cls, 31), minDev |-> IF cls = "max" THEN 63 - d ELSE F(cls, 63)]
-Mk(hi, lo, cls, fl, el, shape) ==
-  LET cdrs == [i \in 1..Len(shape) |->
+Mk(hi, lo, mcls, fl, el, shape) ==
+  LET cls == Base(mcls)
+      cdrs == [i \in 1..Len(shape) |->
                  [rel |-> shape[i][1], ver |-> F(cls, 31), fmt |-> IF cls = "zero" THEN 1 ELSE F(cls, 7), ts |-> F(cls, 31),
                   relExt |-> IF shape[i][1] = 7 THEN (CASE cls = "zero" -> 0 [] cls = "max" -> 255 [] OTHER -> 10 + i) ELSE 0, payload |-> Payload(shape[i][2], i % 8)]]   \* (run tokens carry a pattern number 0..7)
       h0 == [fileLength |-> <<0, 0, 0, 0>>, headerLength |-> <<0, 0, 0, 0>>,
              hiRel |-> hi, hiVer |-> F(cls, 31), loRel |-> lo, loVer |-> IF cls = "max" THEN 30 ELSE F(cls, 31),
-             openTs |-> Ts(cls, 0), lastTs |-> Ts(cls, 1),
+             openTs |-> Ts(OpenCls(mcls), 0), lastTs |-> Ts(LastCls(mcls), 1),
              nCdrs |-> BE4(Len(shape)),
              fileSeq |-> IF cls = "max" THEN <<255, 255, 255, 255>> ELSE BE4(F(cls, 1)),
              closure |-> F(cls, 255), ip |-> [i \in 1..20 |-> IF cls = "zero" THEN 0 ELSE (i * 3 + F(cls, 200)) % 256],
